@@ -373,6 +373,7 @@ def Expr.ok : Expr → Prop
   | .selOr e attrs _ ab d _ db b a =>
     e.ok ∧ attrs ≠ [] ∧ (∀ x ∈ attrs, solidT x) ∧ cm ab = [] ∧ d.ok ∧ cm db = [] ∧ TrivOk b ∧ TrivOk a
   | .lam n bcc _ _ body b a => solidT n ∧ cm bcc = [] ∧ body.ok ∧ TrivOk b ∧ TrivOk a
+  | .un op e _ bt b a => (solidT op ∧ op ≠ ['+', '+']) ∧ e.ok ∧ cm bt = [] ∧ TrivOk b ∧ TrivOk a
 def allOk : List Expr → Prop
   | [] => True
   | e :: rest => e.ok ∧ allOk rest
@@ -408,6 +409,7 @@ def Expr.lexOut : Expr → Bool → List Lex
   | .selOr e attrs _ _ d _ _ b a, na =>
     cm b ++ e.lexOut false ++ attrLex attrs ++ [.tok ['o', 'r']] ++ d.lexOut false ++ (if na then [] else cm a)
   | .lam n _ _ _ body b a, na => cm b ++ [.tok n, .tok [':']] ++ body.lexOut false ++ (if na then [] else cm a)
+  | .un op e _ _ b a, na => cm b ++ [.tok op] ++ e.lexOut false ++ (if na then [] else cm a)
 def lexOutAll : List Expr → List Lex
   | [] => []
   | e :: rest => e.lexOut false ++ lexOutAll rest
@@ -533,6 +535,7 @@ theorem ok_after {e : Expr} (h : e.ok) : TrivOk e.after := by
   | sel e ats g ab b a => exact h.2.2.2.2.2
   | selOr e ats g ab d dg db b a => exact h.2.2.2.2.2.2.2
   | lam n c g k bd b a => exact h.2.2.2.2
+  | un o e g bt b a => exact h.2.2.2.2
 
 theorem ok_before {e : Expr} (h : e.ok) : TrivOk e.before := by
   cases e with
@@ -547,6 +550,7 @@ theorem ok_before {e : Expr} (h : e.ok) : TrivOk e.before := by
   | sel e ats g ab b a => exact h.2.2.2.2.1
   | selOr e ats g ab d dg db b a => exact h.2.2.2.2.2.2.1
   | lam n c g k bd b a => exact h.2.2.2.1
+  | un o e g bt b a => exact h.2.2.2.1
 
 theorem leafBefore_nil' (k : LeafKind) (t : Text) (i : Nat) (inl : Bool) : leafBefore k t [] i inl = [] := by
   unfold leafBefore; split
@@ -561,7 +565,7 @@ theorem addTriviaP_nil_split (a : List Trivia) (core : List FP) (i : Nat) :
   simp [addTriviaP, fmtP, fmtGoP, indentP]
 
 /-- without leading trivia, the own-line rendering is the indentation run followed by the inline one -/
-theorem rebuildAP_indent_split {e : Expr} (h : e.before = []) (na : Bool) (i : Nat) :
+theorem rebuildAP_indent_split {e : Expr} (hok : e.ok) (h : e.before = []) (na : Bool) (i : Nat) :
     e.rebuildAP na i false = .ws (spaces i) :: e.rebuildAP na i true := by
   cases e with
   | leaf k t b a =>
@@ -598,6 +602,12 @@ theorem rebuildAP_indent_split {e : Expr} (h : e.before = []) (na : Bool) (i : N
   | lam n c g k bd b a =>
     simp only [Expr.before] at h; subst h
     simp [Expr.rebuildAP, addTriviaP, fmtP, fmtGoP, indentP]
+  | un o e g bt b a =>
+    simp only [Expr.before] at h; subst h
+    have hne : (o == ['+', '+']) = false := by
+      have := hok.1.2
+      simpa using this
+    simp [Expr.rebuildAP, addTriviaP, fmtP, fmtGoP, indentP, hne]
   | asrt c bd x y b a =>
     simp only [Expr.before] at h; subst h
     simp only [Expr.rebuildAP, addTriviaP_nil_split, List.cons_append, concat_cons, text_ws]
@@ -651,7 +661,7 @@ theorem withBodyPartP_shape {body : Expr} (hbd : body.ok) (awc : List Trivia) (a
     split
     · rename_i hcond
       simp only [Bool.and_eq_true, bne_iff_ne, ne_eq] at hcond
-      rw [rebuildAP_indent_split hbf, dropCharsP_ws_spaces i _ hcond.1]
+      rw [rebuildAP_indent_split hbd hbf, dropCharsP_ws_spaces i _ hcond.1]
       exact ⟨true, _, rfl⟩
     · exact ⟨false, _, rfl⟩
   · split
@@ -767,6 +777,7 @@ theorem rebuildAP_lex : (e : Expr) → e.ok → ∀ (na : Bool) (i : Nat) (b : B
       | sel e ats g ab b a => exact hv.2.2.2.2.2
       | selOr e ats g ab d dg db b a => exact hv.2.2.2.2.2.2.2
       | lam n c g k bd b a => exact hv.2.2.2.2
+      | un o e g bt b a => exact hv.2.2.2.2
     have hbt := bindingTailP_lex (trivOk_append hva (ite_nil_ok na ha)) i
     have hi := indentP_lex i b
     simp only [Expr.rebuildAP, Expr.lexOut]
@@ -966,6 +977,31 @@ theorem rebuildAP_lex : (e : Expr) → e.ok → ∀ (na : Bool) (i : Nat) (b : B
       (solid_append (solid_cons (p := FP.tok name) hn (solid_wsc _ (solid_tokc ':' (by decide) (solid_wsc _ solid_nil)))) ihb.2) i b
     refine ⟨?_, hatp.2⟩
     rw [hatp.1]; simp [ihb.1, cm_ite_nil]
+  | .un op expr g bt before after, hok, na, i, b => by
+    obtain ⟨⟨hop, _⟩, he, _, hb, ha⟩ := hok
+    have ihe := rebuildAP_lex expr he false
+    simp only [Expr.rebuildAP, Expr.lexOut]
+    have hexpr : lexOf (if (unLayout bt g).onNewline = true then expr.rebuildAP false ((unLayout bt g).indent.getD i) false
+          else expr.rebuildAP false i true) = expr.lexOut false ∧
+        Solid (if (unLayout bt g).onNewline = true then expr.rebuildAP false ((unLayout bt g).indent.getD i) false
+          else expr.rebuildAP false i true) := by
+      split
+      · exact ihe _ _
+      · exact ihe _ _
+    have hbase : lexOf (if (op == ['+', '+'] && !b) = true then [FP.ws (['\n'] ++ spaces i), FP.tok op] else [FP.tok op]) = [Lex.tok op] ∧
+        Solid (if (op == ['+', '+'] && !b) = true then [FP.ws (['\n'] ++ spaces i), FP.tok op] else [FP.tok op]) := by
+      split
+      · exact ⟨by simp, solid_wsc _ (solid_tok hop)⟩
+      · exact ⟨by simp, solid_tok hop⟩
+    revert hexpr hbase
+    generalize (if (unLayout bt g).onNewline = true then expr.rebuildAP false ((unLayout bt g).indent.getD i) false
+          else expr.rebuildAP false i true) = EP
+    generalize (if (op == ['+', '+'] && !b) = true then [FP.ws (['\n'] ++ spaces i), FP.tok op] else [FP.tok op]) = BP
+    intro hexpr hbase
+    have hatp := addTriviaP_lex (core := BP ++ [FP.ws (unSep bt g i)] ++ EP) hb (ite_nil_ok na ha)
+      (solid_append (solid_append hbase.2 (solid_wsc _ solid_nil)) hexpr.2) i b
+    refine ⟨?_, hatp.2⟩
+    rw [hatp.1]; simp [hbase.1, hexpr.1, cm_ite_nil]
 theorem rebuildAllP_lex : (es : List Expr) → allOk es → ∀ (i : Nat) (b : Bool),
     ((rebuildAllP es i b).map lexOf).flatten = lexOutAll es ∧ ∀ x ∈ rebuildAllP es i b, Solid x
   | [], _, i, b => ⟨rfl, by intro x hx; cases hx⟩
@@ -991,6 +1027,7 @@ theorem previewP_lex : (e : Expr) → e.ok → ∀ (i : Nat) (p : List FP), e.pr
   | .sel .., _, i, p, h => by simp [Expr.previewP] at h
   | .selOr .., _, i, p, h => by simp [Expr.previewP] at h
   | .lam .., _, i, p, h => by simp [Expr.previewP] at h
+  | .un .., _, i, p, h => by simp [Expr.previewP] at h
   | .list value ml inner before after, hok, i, p, h => by
     obtain ⟨hv, hin, hb, ha⟩ := hok
     have ih := fun i b => rebuildAllP_lex value hv i b
